@@ -351,13 +351,15 @@ Definition run_net (max_iter : Z) (cod cel : bool) (cs : list entry) (s : cst)
 (* ---- spec side *)
 (* "inside its band or the tap is at the limit in the needed direction" (or no voltage at the bus) *)
 Definition needs_lower_tap (t : tapc) (low_voltage : bool) : bool := Bool.eqb (t_dir t) low_voltage.
+Definition tap_is (tap : F) (lim : Q) : Prop := match tap with Some x => x == lim | None => False end.
+Definition limit_for (t : tapc) (low_voltage : bool) : Q := if needs_lower_tap t low_voltage then t_min t else t_max t.
 Definition disc_ok (t : tapc) (lower upper : Q) (vm tap : F) : Prop :=
   match vm with
   | None => True
   | Some v =>
       (lower < v /\ v < upper) \/
-      (v < lower /\ exists x, tap = Some x /\ x == (if needs_lower_tap t true then t_min t else t_max t)) \/
-      (upper < v /\ exists x, tap = Some x /\ x == (if needs_lower_tap t false then t_min t else t_max t))
+      (v < lower /\ tap_is tap (limit_for t true)) \/
+      (upper < v /\ tap_is tap (limit_for t false))
   end.
 Definition cont_ok (t : tapc) (k : contp) (vm tap : F) : Prop :=
   match vm with
@@ -365,10 +367,9 @@ Definition cont_ok (t : tapc) (k : contp) (vm tap : F) : Prop :=
   | Some v =>
       (~ v == 0 /\ Qabs (1 - k_vset k / v) < k_tol k) \/
       (k_check k = true /\
-       ((v < k_vset k /\ exists x, tap = Some x /\ x == (if needs_lower_tap t true then t_min t else t_max t)) \/
-        (k_vset k < v /\ exists x, tap = Some x /\ x == (if needs_lower_tap t false then t_min t else t_max t))))
+       ((v < k_vset k /\ tap_is tap (limit_for t true)) \/ (k_vset k < v /\ tap_is tap (limit_for t false))))
   end.
-Definition is_int (x : Q) : bool := Z.eqb (Z.modulo (Qnum x) (Zpos (Qden x))) 0.
+Definition integral (x : Q) : Prop := exists z : Z, x == inject_Z z.
 Definition in_bounds (t : tapc) (tap : F) : Prop :=
   match tap with Some x => t_min t <= x /\ x <= t_max t | None => True end.
 
